@@ -124,6 +124,12 @@ def _gen_callout(rng, shape=None):
                      ALNUM + '-.'), loclen) if loclen else []
     if loclen and not any(loc):
         loc = text('U', loclen)
+    if loclen >= 8 and rng.random() < .12:
+        # a location code with characters that take two or three bytes each (the length byte counts BYTES)
+        body = ('U78D' + rng.choice(['\u00e9', '\u20ac', '\u00b5\u00df', '\u4e2d\u00e9'])).encode('utf-8')
+        body = body + rtext(rng, max(0, loclen - len(body) - rng.choice([0, 1, 3])), ALNUM).encode()
+        loc = list(body[:loclen]) if len(body[:loclen].decode('utf-8', 'ignore').encode()) == len(body[:loclen]) else loc
+        loc = (loc + [0] * loclen)[:loclen]
     c = dict(flags=rng.randrange(256), prio=rng.choice([0x48, 0x4D, 0x41, 0x42, 0x43, 0x4C, 0x00, 0x5A]),
              loc=loc, fru=gen_fru(rng, shape.get('fru')), pce=None, mru=None)
     pce = shape.get('pce', rng.choice([None, None, 1, 4, 9]))
